@@ -18,7 +18,8 @@ namespace O2P.TrReq
 
 /-- the request as the translated functions read it, for a Layer-A request under a configuration -/
 def reqOf (cfg : Cfg) (r : O2P.Req) : Go.Req :=
-  ⟨r.header, r.host, r.scheme, r.uri, some ⟨cfg.reverseProxy⟩⟩
+  { header := r.header, host := r.host, urlScheme := r.scheme, requestURI := r.uri,
+    scope := some ⟨cfg.reverseProxy⟩, method := r.method }
 
 theorem IsProxied_eq (E : Go.Ext) (cfg : Cfg) (r : O2P.Req) :
     Gen.Tr.IsProxied E (reqOf cfg r) = .ok cfg.reverseProxy := by
